@@ -128,7 +128,10 @@ def probe():
                 B.conflict(path, ld, rd)
                 B.custom(path, ld, rd, [], conflict=True, strategy='marked')
                 sub = ('d',) if disp.endswith('dict') else (0,)
-                B.conflict(path + sub, [op_replace('a', 1)], [op_replace('a', 2)])
+                if disp.endswith('dict'):
+                    B.conflict(path + sub, [op_replace('a', 1)], [op_replace('a', 2)])
+                else:   # int-keyed ops on purpose: collect_diffs sorts the diffs of all levels together
+                    B.conflict(path + sub, [op_addrange(0, ['p'])], [op_addrange(0, ['q'])])
                 ret = None; raised = None
                 try:
                     if disp == 'tryresolve':
